@@ -3,7 +3,7 @@
    store) and for ANY trie O that satisfies trie_spec O - the external sparse Merkle trie is modelled, not
    verified; trie_spec is its trusted interface, and C09_trie_spec_satisfiable shows an executable instance. *)
 From Coq Require Import NArith ZArith List Bool.
-From Verif.C09_ADS Require Import Model Proofs Refine Examples Shared SharedProofs.
+From Verif.C09_ADS Require Import Model Proofs Refine Examples Shared SharedProofs Faults FaultsProofs.
 Import ListNotations.
 
 (* Refinement to a plain map.  For every history whose reopens happen with nothing uncommitted: every output
@@ -165,6 +165,72 @@ Example C09_unseparated_realms_leak :
     [Some (ONone c_ops); Some (OStream c_ops [([0%N; 97%N], None); ([3%N], None)])].
 Proof. exact unseparated_realms_leak. Qed.
 
+(* ---------- store faults, consumer errors, second instances (Faults.v) ----------
+   Histories over [fev]: calls without fault (FOk e, every event above incl. EReopen), Set/Add/Delete whose j-th store
+   write is refused, Commit whose root write is refused, Streams aborted by their consumer at visit j, and second
+   instances opened over the same store (FProbe = what a reopen would see).  All theorems: every history, any trie
+   with trie_spec. *)
+
+(* Every history: Get/Has of the live instance are the plain map's (in which a Set/Delete with a refused raw-key or
+   size write HAS taken effect - the listed finding refused-write-keeps-trie-update - and a refused Commit has none);
+   a reopen shows the contents of the last SUCCESSFUL Commit; WasRestored, live and reopened, is true exactly when a
+   Commit succeeded before. *)
+Theorem C09_faults_refine : forall O, trie_spec O -> forall h,
+  let m := fstate_after O h in
+  let p := reopen O m in
+  (forall k, map_get O m k = al_get (s_cur (fspec_after h)) k) /\
+  (forall k, has O m k = is_some (al_get (s_cur (fspec_after h)) k)) /\
+  (forall k, map_get O p k = al_get (committed_or_empty (fspec_after h)) k) /\
+  was_restored O m = existsb is_ok_commit h /\
+  was_restored O p = existsb is_ok_commit h.
+Proof. exact faults_refine. Qed.
+
+(* Failure atomicity of Commit w.r.t. its root write: after a successful Commit, whatever follows without another
+   successful Commit (refused Commits, refused writes of Set/Delete, aborted Streams, probes, reopens that drop
+   uncommitted changes) - a reopen restores exactly the root and contents of that Commit. *)
+Theorem C09_failed_commit_restores_previous : forall O, trie_spec O -> forall h1 h2,
+  existsb is_ok_commit h2 = false ->
+  let c := fstate_after O (h1 ++ [FOk ECommit]) in
+  let m := fstate_after O ((h1 ++ [FOk ECommit]) ++ h2) in
+  let p := reopen O m in
+  map_root O p = map_root O c /\ (forall k, map_get O p k = map_get O c k) /\
+  was_restored O p = true /\ was_restored O m = true.
+Proof. exact failed_commit_restores_previous. Qed.
+
+(* ... and while no Commit has succeeded, a reopen is an empty instance that was not restored, and the live instance
+   does not claim to be restored either. *)
+Theorem C09_never_committed_reopens_empty : forall O, trie_spec O -> forall h,
+  existsb is_ok_commit h = false ->
+  let m := fstate_after O h in
+  let p := reopen O m in
+  (forall k, map_get O p k = None) /\ was_restored O p = false /\ was_restored O m = false /\
+  map_root O p = map_root O (fresh O).
+Proof. exact never_committed_reopens_empty. Qed.
+
+(* A refused Commit, an aborted Stream (map or set) and a second instance leave the state untouched: whatever
+   follows behaves as if they had not happened (in particular the instance stays usable). *)
+Theorem C09_neutral_calls_keep_state : forall O h e, is_neutral e = true ->
+  fstate_after O (h ++ [e]) = fstate_after O h.
+Proof. exact neutral_keeps_state. Qed.
+
+(* The fault model is an extension: on fault-free histories it is the model of the theorems above. *)
+Theorem C09_fault_free_is_run : forall O h m, fst (frun O m (map FOk h)) = fst (run O m h).
+Proof. exact fault_free_is_run. Qed.
+
+(* non-vacuity / concrete run on the executable trie: Set a; Commit; Set b; Set c with the size write refused;
+   Commit with the root write refused; Stream aborted at visit 0; second instance: restored, root = {a:1}, Size 2 and
+   raw keys a,b,c (written through), contents {a:1} *)
+Example C09_faults_nonvacuous :
+  (fouts c_ops fx_hist =
+    [FO c_ops (ONone c_ops); FO c_ops (ONone c_ops); FO c_ops (ONone c_ops); FErr c_ops; FErr c_ops;
+     FAborted c_ops [(fx_a, Some [1%N])] true;
+     FProbed c_ops true [(fx_a, [1%N])] 2 [(fx_a, Some [1%N]); (fx_b, None); (fx_c, None)] [Some [1%N]; None; None]] /\
+   map_size c_ops (fstate_after c_ops fx_hist) = 2%Z /\
+   map_get c_ops (fstate_after c_ops fx_hist) fx_c = Some [3%N]) /\
+  existsb is_ok_commit [FOk (ESet fx_b (Some [2%N])); FFailSet fx_c (Some [3%N]) 1; FFailCommitRoot; FAbort 0] = false.
+Proof. exact (conj fx_outs fx_guard). Qed.
+
+
 Print Assumptions C09_refines_map.
 Print Assumptions C09_size_exact.
 Print Assumptions C09_refines_map_any_reopen.
@@ -179,3 +245,8 @@ Print Assumptions C09_instances_independent.
 Print Assumptions C09_instances_independent_view.
 Print Assumptions C09_wipe_independent.
 Print Assumptions C09_separated_footprints.
+Print Assumptions C09_faults_refine.
+Print Assumptions C09_failed_commit_restores_previous.
+Print Assumptions C09_never_committed_reopens_empty.
+Print Assumptions C09_neutral_calls_keep_state.
+Print Assumptions C09_fault_free_is_run.
